@@ -211,7 +211,13 @@ func parseString(s *sqliState) int {
 }
 
 func parseWord(s *sqliState) int {
-	length := strLenCSpn(s.input[s.pos:], s.length-s.pos, wordAcceptTable)
+	// only the first tokenSize bytes of the run can end up in the token value; measure the rest of
+	// the run only once it is known to be consumed (a keyword prefix may hand most of it back)
+	head := s.length - s.pos
+	if head > tokenSize {
+		head = tokenSize
+	}
+	length := strLenCSpn(s.input[s.pos:], head, wordAcceptTable)
 	s.current.assign(sqliTokenTypeBareWord, s.pos, length, s.input[s.pos:])
 
 	// now we need to look inside what we good for "." and "`"
@@ -228,6 +234,10 @@ func parseWord(s *sqliState) int {
 				return s.pos + i
 			}
 		}
+	}
+
+	if length == tokenSize {
+		length += strLenCSpn(s.input[s.pos+length:], s.length-s.pos-length, wordAcceptTable)
 	}
 
 	// do normal lookup with word including '.'
